@@ -16,7 +16,7 @@ Ltac ssolve :=
   repeat match goal with
   | |- _ /\ _ => split
   | |- exists _, _ => eexists
-  | |- _ = _ => reflexivity
+  | |- _ = _ => first [ reflexivity | solve [norm; reflexivity] ]
   | |- _ <> _ => eassumption
   | |- forallb _ _ = true => eassumption
   | |- length _ = _ => eassumption
@@ -69,7 +69,7 @@ Proof. intros H. unfold sh_mm. shape H. Qed.
 
 (* GetManifestTag *)
 Definition sh_tag (t1 t2 : list N) (c : list (list N)) : Prop :=
-  t2 = [] /\ exists pre t x, t1 = pre ++ SL :: s_manifests ++ SL :: s_tags ++ SL :: t ++ SL :: x ++ SL :: s_link /\ c = [t; x]
+  t2 = [] /\ exists pre t x, c = [t; x] /\ t1 = pre ++ SL :: s_manifests ++ SL :: s_tags ++ SL :: t ++ SL :: x ++ SL :: s_link
     /\ pre_ok pre /\ cls cs_noslash t
     /\ (x = s_current \/ exists h, x = s_index ++ SL :: s_sha256 ++ SL :: h /\ cls c09az h).
 Lemma shape_tag t1 t2 c : D ast_get_manifest_tag t1 t2 c -> sh_tag t1 t2 c.
